@@ -633,6 +633,23 @@ func (kr *kindRules) roundConvert(w *World, f *ssa.Function, x *ssa.Convert, pos
 		isFloor = true
 		floorArg = c.Call.Args[0]
 	}
+	// the floor taken on every way into a merge point, or inside a private helper
+	flooredMix := false
+	var floorArgs []ssa.Value
+	if !isFloor {
+		var calls []*ssa.Call
+		yes, no := flooredLeaves(w, src, 0, map[ssa.Value]bool{}, &calls)
+		if yes > 0 && no == 0 {
+			isFloor = true
+			for _, fc := range calls {
+				floorArgs = append(floorArgs, fc.Call.Args[0])
+			}
+		} else if yes > 0 {
+			flooredMix = true
+		}
+	} else {
+		floorArgs = []ssa.Value{floorArg}
+	}
 	k := all & vfam
 	idx := all & ks(kLON, kLAT, kX, kY)
 	if hc, ok := src.(*ssa.Call); ok && (k != 0 || idx != 0) {
@@ -655,29 +672,65 @@ func (kr *kindRules) roundConvert(w *World, f *ssa.Function, x *ssa.Convert, pos
 		sub := fmt.Sprintf("float-to-integer conversion #%d of a %s value", ord["conv"], k)
 		if isFloor {
 			kr.add("ROUND", f, sub, pos, Discharged, "conversion applied to the result of math.Floor")
+		} else if flooredMix {
+			kr.add("ROUND", f, sub, pos, Undecided, "the converted value is the result of math.Floor on some ways into the conversion and another value on others ("+shortInstr(x)+")")
 		} else {
 			kr.add("ROUND", f, sub, pos, Violated, "Go float-to-integer conversion truncates toward zero; a signed vertical quantity ("+k.String()+") must pass through math.Floor first ("+shortInstr(x)+")")
 		}
 	}
-	if isFloor && (k != 0 || idx != 0) {
+	for _, floorArg := range floorArgs {
+		if !(k != 0 || idx != 0) {
+			break
+		}
 		ord["bias"]++
 		sub := fmt.Sprintf("floor #%d feeding an index of kind %s", ord["bias"], (k | idx))
 		if b, ok := resolve(floorArg).(*ssa.BinOp); ok && (b.Op == token.ADD || b.Op == token.SUB) {
 			if c, ok := constFloat(b.Y); ok && c != 0 {
 				kr.add("FLOOR-NOBIAS", f, sub, pos, Violated, fmt.Sprintf("math.Floor is applied to (expr %s %v): a constant bias moves values across cell boundaries", b.Op, c))
-				return
+				continue
 			}
 			if c, ok := constFloat(b.X); ok && c != 0 && b.Op == token.ADD {
 				kr.add("FLOOR-NOBIAS", f, sub, pos, Violated, fmt.Sprintf("math.Floor is applied to (%v + expr): a constant bias moves values across cell boundaries", c))
-				return
+				continue
 			}
 			if isGlobalConstLike(b.Y) || isGlobalConstLike(b.X) {
 				kr.add("FLOOR-NOBIAS", f, sub, pos, Violated, "math.Floor is applied to an expression with an additive constant bias")
-				return
+				continue
 			}
 		}
 		kr.add("FLOOR-NOBIAS", f, sub, pos, Discharged, "math.Floor operand has no additive constant")
 	}
+}
+
+// flooredLeaves counts, over the values that can reach v through phis and through the results of
+// private one-result helpers, how many are results of math.Floor (yes) and how many are not (no).
+func flooredLeaves(w *World, v ssa.Value, depth int, seen map[ssa.Value]bool, calls *[]*ssa.Call) (yes, no int) {
+	v = resolve(v)
+	if seen[v] {
+		return 0, 0
+	}
+	seen[v] = true
+	switch x := v.(type) {
+	case *ssa.Phi:
+		for _, e := range x.Edges {
+			y, n := flooredLeaves(w, e, depth, seen, calls)
+			yes, no = yes+y, no+n
+		}
+		return
+	case *ssa.Call:
+		if calleeIs(x, "math", "Floor") {
+			*calls = append(*calls, x)
+			return 1, 0
+		}
+		if g := calleeOf(x); g != nil && w.InModule(g) && g.Blocks != nil && depth < 2 && g.Signature.Results().Len() == 1 {
+			for _, ret := range returnsOf(g) {
+				y, n := flooredLeaves(w, ret.Results[0], depth+1, seen, calls)
+				yes, no = yes+y, no+n
+			}
+			return
+		}
+	}
+	return 0, 1
 }
 
 func isGlobalConstLike(v ssa.Value) bool {
